@@ -27,7 +27,8 @@ try:
     shutil.copy(demo, dst)
     names = re.findall(r"^func (Test\w+)\(", open(demo).read(), re.M)
     runre = "^(%s)$" % "|".join(names)
-    gt = "go test -modfile=%s -vet=off -count=1 -timeout 600s" % modfile
+    tags = ("-tags " + sys.argv[sys.argv.index("--tags") + 1] + " ") if "--tags" in sys.argv else ""
+    gt = "go test %s-modfile=%s -vet=off -count=1 -timeout 600s" % (tags, modfile)
     rc0, out0 = sh("%s -run '%s' ./%s" % (gt, runre, demodir_rel), cwd)
     print("1. demo on HEAD: rc=%d %s" % (rc0, "PASS" if rc0 == 0 else "FAIL\n" + out0[-1500:]))
     rc, out = sh("git apply %s" % patch)
@@ -35,7 +36,7 @@ try:
     rc1, out1 = sh("%s -run '%s' ./%s" % (gt, runre, demodir_rel), cwd)
     print("2a. demo with patch: rc=%d %s" % (rc1, "FAILS (as wanted)" if rc1 != 0 else "PASSES (demo does not show the break!)"))
     os.remove(dst)
-    rc2, out2 = sh("%s %s" % (gt, pkgs), cwd)
+    rc2, out2 = sh("%s %s" % (gt.replace(tags, ""), pkgs), cwd)
     fails = re.findall(r"^(--- FAIL.*|FAIL\s+\S+.*)$", out2, re.M)
     print("2b. existing tests with patch (%s): rc=%d %s" % (pkgs, rc2, "PASS" if rc2 == 0 else "FAIL %s" % fails[:6]))
     e2 = dict(os.environ, VERIF_REPO=wt)
